@@ -145,6 +145,11 @@ def cases(tier, seed):
                 for lay in range(3):
                     for pr in (1.0, 5.0):
                         out.append({"kind": "cantera", "recipe": rec_, "kept": kept, "seed": seed, "w": 40, "layout": lay, "pressure": pr})
+    # a planar flame (state invariant along x and y); a pressure at the far end of the range (1500 atm)
+    for rec_ in ("HRR", "ENT"):
+        out.append({"kind": "cantera", "recipe": rec_, "kept": "temp", "seed": seed, "w": 40, "layout": 1, "pressure": 1.0, "planar": True})
+    for rec_ in ("SDi", "HRR"):
+        out.append({"kind": "cantera", "recipe": rec_, "kept": None, "seed": seed, "w": 40, "layout": 2, "pressure": 1500.0})
     return out
 
 
@@ -316,13 +321,15 @@ def run_user(case, workdir, rec):
 
 
 # -------------------------------------------------------------------------------------------
-def thermo_desc(seed, layout):
+def thermo_desc(seed, layout, planar=False):
     fields = ["density", "temp"] + ["Y(%s)" % s for s in SPECIES] + ["Zmix"]
     mesh = {"ndims": 3, "domain": [4, 4, 2],
             "levels": [[[[0, 0, 0], [3, 1, 1]], [[0, 2, 0], [1, 3, 1]], [[2, 2, 0], [3, 3, 1]]], [[[2, 2, 0], [5, 5, 3]]]]}
     lays = [[None, None], [{"files": [[2, 0], [1]], "nums": [0, 1]}, None], [{"files": [[1], [2], [0]], "nums": [2, 0, 1]}, None]]
     d = dict(mesh)
     d.update({"fields": fields, "payload": "pos", "layout": lays[layout], "seed": seed, "origin": [0.0, 0.0, 0.0], "dx0": [0.25, 0.25, 0.25]})
+    if planar:
+        d["planar"] = True        # a planar flame: the thermochemical state varies along z only, no undefined cells
     return d
 
 
@@ -334,6 +341,8 @@ def thermo_ref(d):
             lo, hi = ref.boxes[lv][b]
             idx = np.meshgrid(*[np.arange(lo[k], hi[k] + 1) for k in range(3)], indexing="ij")
             s = idx[0] + 2 * idx[1] + 3 * idx[2] + lv
+            if d.get("planar"):
+                s = 3 * idx[2] + lv + 0 * idx[0]
             a[..., 1] = 600.0 + 100.0 * (s % 13)                       # temp
             w = np.empty(a.shape[:-1] + (ns,))
             for k in range(ns):
@@ -344,6 +353,8 @@ def thermo_ref(d):
             w[..., 19] += 0.4         # N2
             w /= w.sum(axis=-1)[..., None]
             a[..., 2:2 + ns] = w
+            if d.get("planar"):
+                continue
             # undefined states at fixed cells
             a[0, 0, 0, 1] = 0.0                      # T = 0
             a[-1, -1, -1, 2:2 + ns] = 0.0            # sum(Y) = 0
@@ -382,7 +393,7 @@ def percell(prop, a, P, idx=None):
 def run_cantera(case, workdir, rec):
     import cantera as ct
     from amr_kitchen.chef import Chef
-    d = thermo_desc(case["seed"], case["layout"])
+    d = thermo_desc(case["seed"], case["layout"], planar=bool(case.get("planar")))
     ref = thermo_ref(d)
     path = os.path.join(workdir, "plt00000")
     write_plotfile(d, path, ref=ref)
